@@ -33,7 +33,7 @@ ASSUMPTIONS = [
     "bounds given against the walking direction (e.g. a[1:3] on a decreasing axis): both an empty result and the bounding box are accepted (statement is silent)",
     "axes of length < 2 have no direction: either reading accepted",
 ]
-MANDATORY = ["1d:inc", "1d:dec", "1d:neg-step", "1d:bound-between", "1d:bound-outside", "1d:empty-selection",
+MANDATORY = ["axis.loc:issorted", "1d:inc", "1d:dec", "1d:neg-step", "1d:bound-between", "1d:bound-outside", "1d:empty-selection",
              "strict:shuffled", "strict:str", "strict:absent-bound", "pos", "nd:slice-not-first-dim", "nd:with-list", "nd:with-scalar", "nd:ellipsis", "nd:take-axis-negative"]
 
 STEPS = [None, 1, 2, 3, -1, -2]
@@ -240,9 +240,13 @@ def run_1d(case):
                 expect_exc = None
             except im.Expected as e:
                 alts, expect_exc = None, e
-            for spelling in ("getitem", "take"):
+            # Axis.loc's documented issorted=True (labels stored in increasing order: binary search instead of a scan) locates the same positions
+            declared_sorted = len(labels) >= 1 and all(x < y for x, y in zip(labels, labels[1:]))
+            for spelling in ("getitem", "take") + (("axis.loc(issorted=True)",) if declared_sorted and expect_exc is None else ()):
                 sl = slice(start, stop, step)
-                f = (lambda: a[sl]) if spelling == "getitem" else (lambda: a.take(sl, axis=0))
+                f = (lambda: a[sl]) if spelling == "getitem" else (lambda: a.take(sl, axis=0)) if spelling == "take" else (lambda: a.take(a.axes[0].loc(sl, issorted=True), axis=0, indexing="position"))
+                if spelling.startswith("axis.loc"):
+                    classes.add("axis.loc:issorted")
                 what = "%s labels=%r [%r:%r:%r]" % (spelling, labels, start, stop, step)
                 sig = {"mode": "1d", "axis": "monotonic" if alts is not None and kind != "s" and any(im.monotonic(labels)) else "strict"}
                 if expect_exc is not None:
